@@ -6,7 +6,7 @@ from execworld import World
 import execreplay
 
 QUICK = ["MC_faults_layout.cfg", "MC_faults_nested.cfg", "MC_faults_abstract.cfg", "MC_faults_pairs.cfg",
-         "MC_faults_mut.cfg", "MC_faults_args.cfg", "MC_faults_s2.cfg", "MC_faults_s2g.cfg", "MC_faults_cs.cfg", "MC_faults_csm.cfg"]
+         "MC_faults_mut.cfg", "MC_faults_args.cfg", "MC_faults_s2.cfg", "MC_faults_s2g.cfg", "MC_faults_cs.cfg", "MC_faults_csm.cfg", "MC_faults_gd.cfg"]
 THOROUGH = QUICK + ["MC_faults_layout3.cfg", "MC_faults_nested4.cfg"]
 ENGINE_CFGS = [{}, {"list_conc": False, "parent_conc": False, "field_parent_conc": False, "args": "sync"},
                {"list_conc": False}, {"field_parent_conc": False}]
